@@ -91,3 +91,57 @@ func (c *vSplitConn) Read(p []byte) (int, error) {
 	c.pos += n
 	return n, nil
 }
+
+// vScriptChannel is a sequential mock of the Channel interface: reads come
+// from a script, writes are recorded.  msize may be symbolic.
+type vScriptChannel struct {
+	msize   int
+	script  []*Fcall
+	readErr error
+	written []*Fcall
+	writeErr error
+	setCalls int
+}
+
+func (c *vScriptChannel) ReadFcall(ctx context.Context, fc *Fcall) error {
+	if len(c.script) == 0 {
+		if c.readErr != nil {
+			return c.readErr
+		}
+		return io.EOF
+	}
+	*fc = *c.script[0]
+	c.script = c.script[1:]
+	return nil
+}
+
+func (c *vScriptChannel) WriteFcall(ctx context.Context, fc *Fcall) error {
+	if c.writeErr != nil {
+		return c.writeErr
+	}
+	cp := *fc
+	c.written = append(c.written, &cp)
+	return nil
+}
+
+func (c *vScriptChannel) MSize() int { return c.msize }
+func (c *vScriptChannel) SetMSize(m int) {
+	c.setCalls++
+	c.msize = m
+}
+
+// vRecHandler records dispatches.
+type vRecHandler struct {
+	handled int
+	stopped int
+}
+
+func (h *vRecHandler) Handle(ctx context.Context, msg Message) (Message, error) {
+	h.handled++
+	return nil, errVMock
+}
+
+func (h *vRecHandler) Stop(err error) error {
+	h.stopped++
+	return err
+}
